@@ -41,6 +41,7 @@ type Program struct {
 	Lanes     []*LaneSpec
 	Readonly  []*ReadonlySpec
 	StoresVia []*StoresViaSpec
+	Unrolled  []*UnrolledSpec
 	Owned     map[string][]string // pkgpath.Type -> owned receiver fields
 	RepoDir   string
 }
@@ -240,6 +241,7 @@ func (p *Program) parseSpecFuncs(fset *token.FileSet, f *ast.File, pkgPath strin
 		p.Lanes = append(p.Lanes, parseLaneBlocks(pkgPath, lines, where)...)
 		p.Readonly = append(p.Readonly, parseReadonlyBlocks(pkgPath, lines, where)...)
 		p.StoresVia = append(p.StoresVia, parseStoresViaBlocks(pkgPath, lines, where)...)
+		p.Unrolled = append(p.Unrolled, parseUnrolledBlocks(pkgPath, lines, where)...)
 	}
 	for _, cg := range f.Comments {
 		for _, c := range cg.List {
